@@ -60,7 +60,9 @@ def parseAddr (s : String) : Addr := (s.drop 1).toNat?.getD 99
 value the database holds, up to nil / empty -/
 def cacheDbB (l : L) : Bool :=
   l.cache.state.all (fun p => p.2.all (fun q => decide (q.2.getD "" = ((KV.get l.db.state (p.1, q.1) : Bytes)).getD "")))
-def cdb (l : L) : String := " ##m cachedb=" ++ (if cacheDbB l then "1" else "0")
+/-- `Bxh.Ledger.InnerDb` as a computation: every cached account record is the stored one -/
+def innerDbB (l : L) : Bool := l.cache.inner.all (fun p => decide (KV.get l.db.acct p.1 = some p.2))
+def cdb (l : L) : String := " ##m cachedb=" ++ (if cacheDbB l then "1" else "0") ++ " innerdb=" ++ (if innerDbB l then "1" else "0")
 
 def verLine (l : L) : String := s!"ver={l.maxJ} min={l.minJ} root={l.prevRoot}"
 
@@ -143,7 +145,7 @@ def step (s : St) (ws : List String) : St × String :=
     match reopen l with
     | some l' => ({ s with l := l', flushed := none }, "ok " ++ verLine l' ++ cdb l)
     | none => (s, "err open other")
-  | ["evict", "inner", a] => ({ s with l := { l with cache := { l.cache with inner := KV.erase l.cache.inner (parseAddr a) } } }, "ok")
+  | ["evict", "inner", a] => ({ s with l := { l with cache := { l.cache with inner := KV.erase l.cache.inner (parseAddr a) } } }, "ok" ++ cdb l)
   | ["evict", "state", a] => ({ s with l := { l with cache := { l.cache with state := KV.erase l.cache.state (parseAddr a) } } }, "ok" ++ cdb l)
   | ["evict", "code", a] => ({ s with l := { l with cache := { l.cache with code := KV.erase l.cache.code (parseAddr a) } } }, "ok")
   | ["evict", "key", a, k] =>
